@@ -9,6 +9,7 @@ COQ_IMPORTS = 'From VRP Require Import Base.Tac Model.Core Spec.Feasible Model.E
 MODEL_TARGETS = ['theories/Model/Eval.vo']
 MODEL_NEEDS_IMPL = True
 SHARD = 60
+SUBSTREAMS = ['c20_wide']
 SIZES = {'quick': 700, 'thorough': 10000, 'search': 5000}
 RULE = ('cases: a target vehicle with a tour of 0-5 activities (empty tour = route taken from the registry), 0-1 other routes, '
         '0-2 ignored jobs and 0-2 other required jobs, goal layers [unassigned, tours, cost], [unassigned, tours, distance], '
@@ -17,7 +18,8 @@ RULE = ('cases: a target vehicle with a tour of 0-5 activities (empty tour = rou
         'pickup-and-delivery (multi) job whose two activities are placed by the real eval_multi. The quote of '
         'eval_job_insertion_in_route is compared layer by layer with fitness(recreate step with the insertion) - fitness(recreate step '
         'without it), both produced by the real InsertionHeuristic::process. non-trivial = distinct cases where the insertion succeeded.')
-TRUSTED = ['time-independent routing; SimpleActivityCost; driver costs zero (as the pragmatic format produces)']
+TRUSTED = ['time-independent routing; SimpleActivityCost; parent stream: driver costs zero (as the pragmatic format produces), one place / window '
+           'per sub-job of a multi job; sub-stream c20_wide: driver with costs, alternative places / windows, permutations of sub-jobs']
 ASSUMPTIONS = ['cost layer equality is claimed only for uniform time cost rates and tours without waiting before and after (as the property states); '
                'for a multi job also every intermediate shadow tour must be free of waiting',
                'the unassigned count is taken at hand-over (after finalize moves pending jobs to unassigned), see notes/C20.md']
@@ -244,8 +246,17 @@ MANIFEST_TEXT = ('Machine-checked proof (Coq): over the executable model of the 
                  'time rates when the tour has no waiting before and after. The model is tied to /repo on '
                  'every run: the quote of the real eval_job_insertion_in_route (single and pickup-delivery candidates, goals with tours or value as '
                  'second layer) and the fitness vectors of two real recreate steps (with / without the insertion) are compared with the model and '
-                 'the equality is checked on the implementation output.')
+                 'the equality is checked on the implementation output. Widened (sub-stream c20_wide, Model/ObjectivesX.v): the cost objective with '
+                 'DRIVER costs next to the vehicle costs (quote = realised change when both have uniform time rates and no shadow tour has waiting; '
+                 'the two fixed costs are quoted exactly when the insertion opens a new tour), and the whole search of eval_single / eval_multi '
+                 '(every place x window of every sub-job on every leg of the shadow tours, MultiContext::promote over start indices and over the '
+                 'allowed permutations, proved to terminate): a success carries exactly the activities whose estimates were summed, each a declared '
+                 'place / window of its sub-job accepted by the constraint evaluation, hence quote = realised change for the returned activities; '
+                 'the real result (quote vector, every activity: index, place index, location, duration, window), the tour after the real insertion '
+                 'and the realised change are compared exactly with the modelled search on fleets built through the core API with driver costs.')
 MANIFEST_NOTE = ('Trusted: Coq kernel+vm_compute; harness/generators. Modelled not verified: time-dependent routing, work-balance / tour-compactness / '
-                 'fast-service objectives (not additive; outside the statement); for multi-jobs the search of eval_multi is not modelled, its result is replayed as a certificate. '
+                 'fast-service objectives (not additive; outside the statement); parent stream: the result of eval_multi is replayed as a certificate, sub-stream c20_wide: '
+                 'the search itself is modelled (LegSelection::Exhaustive, BestResultSelector, InsertionPosition::Any, one target route with alternative = plain failure; '
+                 'stochastic leg sampling, noise selectors and the comparison with a previous success of another route are not modelled). '
                  'Known finding: unassigned objective counts ignored jobs only while the solution has no routes.')
 MANIFEST_TECHNIQUE = 'Coq proof (quote = objective delta, induction over tours) + vm_compute differential correspondence'
